@@ -78,6 +78,27 @@ func (c *ctx) sourceCopy() {
 			}
 			return true
 		})
+		// parameters of entered helpers stand for the arguments they were called with
+		allBind := map[types.Object]ast.Expr{}
+		for _, ic := range inlined {
+			for po, arg := range ic.Bindings() {
+				allBind[po] = arg
+			}
+		}
+		throughParams := func(e ast.Expr) ast.Expr {
+			for i := 0; i < 6; i++ {
+				id, ok := astx.Unparen(e).(*ast.Ident)
+				if !ok {
+					break
+				}
+				arg, ok := allBind[astx.ObjOf(info, id)]
+				if !ok {
+					break
+				}
+				e = arg
+			}
+			return e
+		}
 		isOffsetOf := func(e ast.Expr, what string) bool {
 			call, ok := astx.Unparen(e).(*ast.CallExpr)
 			if !ok || len(call.Args) != 1 {
@@ -87,7 +108,7 @@ func (c *ctx) sourceCopy() {
 			if !ok || se.Sel.Name != "Offset" {
 				return false
 			}
-			return strings.HasSuffix(astx.Short(call.Args[0]), what)
+			return strings.HasSuffix(astx.Short(throughParams(call.Args[0])), what)
 		}
 		root := func(x sl, e ast.Expr) types.Object {
 			if e == nil {
